@@ -105,6 +105,17 @@ func c13Scenarios(thorough bool) []cmdScn {
 		}
 		out = append(out, s)
 	}
+	// more requests pipelined behind a slow reply than the reader->writer queue holds (10), with and without a command waiting, then the peer goes
+	for _, how := range []string{"pipelined-then-reset", "pipelined-then-close"} {
+		for _, k := range []int{0, 1} {
+			s := cmdScn{Name: fmt.Sprintf("c13:busy-writer:%s:12:k=%d", how, k), Disconnect: true, FailWrites: how == "pipelined-then-reset", Bound: 1, SlowReplyMs: 120,
+				Terms: []termSpec{{Phone: p1, Behaviour: "never", CloseAt: how, PreHB: 12, LocNow: true}}}
+			for i := 0; i < k; i++ {
+				s.Calls = append(s.Calls, callSpec{Key: p1, Cmd: cmdMenu[i], TimeoutMs: 3000, NoWait: true})
+			}
+			out = append(out, s)
+		}
+	}
 	// ... or stays, and more timeouts expire than the completion queue holds (3) while the writer is busy
 	out = append(out, c12BusyTimeouts(5))
 	return out
@@ -147,7 +158,7 @@ func init() {
 	drv := map[string]func(json.RawMessage) string{"cmd": cmdReplay}
 	vc.Register(&vc.Check{
 		ID: "C12", Level: "model_checking", SingleProc: true,
-		Rule: "real server + scripted terminals + 1..2 (thorough 3) concurrent SendActiveMessage callers with commands from {8103,8104,8801,9101,9205,9206}; terminal behaviours {in order, reverse, only the second, first twice, unknown serial, never, late (after the timers)}, optional heartbeat/location noise, one and two terminals, an absent key, a caller that sends sequentially re-using one ActiveMessage object, a terminal whose first message gets no reply so that the first command carries platform serial 0; " +
+		Rule: "real server + scripted terminals + 1..2 (thorough 3) concurrent SendActiveMessage callers with commands from {8103,8104,8801,9101,9205,9206}; terminal behaviours {in order, reverse, only the second, first twice, unknown serial, never, late (after the timers)}, optional heartbeat/location noise, one and two terminals, an absent key, a caller that sends sequentially re-using one ActiveMessage object, a terminal whose first message gets no reply so that the first command carries platform serial 0, 4 and 5 commands to a silent terminal that all expire while the connection's writer sits in a slow user callback (more timeouts at once than the 3-slot completion queue holds); " +
 			"ALL schedules within the deviation bound (2 quick, 3 thorough), timers are scheduler events that may fire at any point (firing ahead of a runnable thread is a deviation). Non-trivial = schedule with >=1 deviation",
 		Assumptions: []string{"timeouts are decided as events, no wall clock (a timeout must not come before the command's own duration has elapsed in virtual time); 'response or timeout' is all that is demanded when a timer fires early, except in executions without early timers, where an answered command must see its answer",
 			"platform-serial wrap between two outstanding commands is not reachable without 65535 preceding frames and is covered only by C06's wrap run"},
@@ -155,7 +166,7 @@ func init() {
 	})
 	vc.Register(&vc.Check{
 		ID: "C13", Level: "model_checking", SingleProc: true,
-		Rule: "C12's machinery with the terminal closing or resetting at every point of its script (before join, after join, after k commands were written, after responding to all / some, never) x k = 0..2 (thorough 0..5) queued or outstanding commands x write failures as a socket answer; plus 2..3 pipelined requests followed by reset/close with failing writes at 3 deviations; ALL schedules within the deviation bound (2 quick, 3 thorough). " +
+		Rule: "C12's machinery with the terminal closing or resetting at every point of its script (before join, after join, after k commands were written, after responding to all / some, never) x k = 0..2 (thorough 0..5) queued or outstanding commands x write failures as a socket answer; plus 2..3 pipelined requests followed by reset/close with failing writes at 3 deviations; plus busy-writer scenarios (the user's write callback takes 120 ms of virtual time for one reply): 4-5 commands queued behind it (more than the 3-slot queue) and the peer hangs up 50 ms later, 13 requests pipelined behind it (more than the 10-slot reader->writer queue) followed by close/reset with 0..1 commands waiting, 5 timeouts expiring meanwhile; ALL schedules within the deviation bound (2 quick, 3 thorough). " +
 			"Oracle: no goroutine panics (process death) and at quiescence every caller has returned. Non-trivial = schedule with >=1 deviation",
 		Assumptions: []string{"'within its timeout plus slack' is decided as: returns in every maximal execution in which timers fire; no wall clock"},
 		Run:         run(c13Scenarios), Drivers: drv,
